@@ -1,8 +1,11 @@
 import Spake2Verif.Proofs.ProtoSummary
 import Spake2Verif.Proofs.SideChecks
 import Spake2Verif.Proofs.Restore
+import Spake2Verif.Proofs.HistoryGroups
 import Spake2Verif.Spec.IntGroupSpec
 import Spake2Verif.Spec.Ed25519Inst
+import Spake2Verif.Spec.CurveCard
+import Spake2Verif.Proofs.PublishedEvalEd
 /-!
 Auxiliary definitions and lemmas for the property files `Properties/C01 … C10`
 (the property files themselves contain only `theorem`s and `example`s).
@@ -16,7 +19,7 @@ Auxiliary definitions and lemmas for the property files `Properties/C01 … C10`
 -/
 namespace Spake2Verif
 namespace PropAux
-open Spake2Model Spake2Model.Gen Spake2Model.Transcript
+open Spake2Model Spake2Model.Gen Spake2Model.Transcript Spake2Model.Json Spake2Model.Serialize
 
 /-! ### the shipped group objects -/
 
@@ -143,6 +146,381 @@ theorem restore_transparent_started (S : GroupSpec G) {P : Params G} (hP : Valid
   obtain ⟨-, f, e⟩ := hr''.finish_eq S rd bA bB bp
   exact ⟨e.trans hs, f⟩
 
+
+/-! ### C07 helpers -/
+
+/-- `scalar_to_bytes` of the integer groups returns byte strings -/
+theorem scalarEncBytes_intGroup (P : IntGroupParams) : Serialize.ScalarEncBytes (intGroup P) := by
+  intro x xs h
+  change numberToBytes x P.q = .ok xs at h
+  unfold numberToBytes at h
+  split at h
+  · cases h
+  · split at h
+    · cases h
+    · injection h with h; subst h; exact Spake2Model.natToBE_isBytes _ _
+
+/-- `scalar_to_bytes` of the Ed25519 group returns byte strings -/
+theorem scalarEncBytes_edGroup (c : Curve) : Serialize.ScalarEncBytes (edGroup c) := by
+  intro x xs h
+  change Ed25519.scalarEnc c x = .ok xs at h
+  unfold Ed25519.scalarEnc at h
+  dsimp only at h
+  split at h
+  · cases h
+  · injection h with h; subst h; exact Spake2Model.natToLE_isBytes _ _
+
+/-- C07 (d) under the group contract: the secret scalar of a freshly constructed instance, once
+set, stays the same over every history, restores included -/
+theorem scalar_constant_spec (S : GroupSpec G) (hsc : Serialize.ScalarEncBytes G)
+    (side : Side) (pw idA idB : Bytes) (params : Params G) (ent : Entropy)
+    (hpw : IsBytes pw) (hA : IsBytes idA) (hB : IsBytes idB) (ops : List History.HOp) {j k : Nat}
+    {x : Int} (hjk : j ≤ k) (hk : k ≤ ops.length)
+    (hx : (History.stateAt (Inst.new side pw idA idB params ent) ops j).xyScalar = some x) :
+    (History.stateAt (Inst.new side pw idA idB params ent) ops k).xyScalar = some x := by
+  refine History.scalar_constant_range hsc (Good := fun x => 0 ≤ x ∧ x < (S.q : ℤ))
+    (fun ent x ent' h => S.random_range ent x ent' h) ?_ side pw idA idB params ent hpw hA hB ops
+    hjk hk hx
+  intro x b hg hb
+  obtain ⟨b', h1, -, -, h2⟩ := S.scalar_rt x hg.1 hg.2
+  rw [hb] at h1; injection h1 with h1; rw [h1]; exact h2
+
+
+/-! ### C05 helpers -/
+
+/-- everything the contract says about an accepted byte string -/
+theorem dec_accepted (S : GroupSpec G) {b : Bytes} {e : G.Elem} (hb : IsBytes b)
+    (hd : G.dec b = .ok e) :
+    b.length = G.elemSize ∧ S.Valid e ∧ G.enc e = b ∧ (S.q : ℤ) • S.abs e = 0 ∧
+      (S.rejectsIdentity = true → S.abs e ≠ 0) ∧
+      ∃ e', G.dec (G.enc e) = .ok e' ∧ S.abs e' = S.abs e := by
+  obtain ⟨v, he⟩ := S.dec_strict b e hb hd
+  have hnz : S.rejectsIdentity = true → S.abs e ≠ 0 := fun hr => S.dec_nonzero hr b e hb hd
+  exact ⟨he ▸ (S.enc_len e v).1, v, he, S.order_smul e v, hnz, S.dec_enc e v hnz⟩
+
+/-- the accepted byte strings are exactly the encodings of the valid (and, where the decoder refuses
+the identity, non-identity) elements -/
+theorem dec_accepts_iff (S : GroupSpec G) {b : Bytes} (hb : IsBytes b) :
+    (∃ e, G.dec b = .ok e) ↔
+      ∃ a, S.Valid a ∧ (S.rejectsIdentity = true → S.abs a ≠ 0) ∧ G.enc a = b := by
+  constructor
+  · rintro ⟨e, hd⟩
+    obtain ⟨-, v, he, -, hnz, -⟩ := dec_accepted S hb hd
+    exact ⟨e, v, hnz, he⟩
+  · rintro ⟨a, v, hnz, rfl⟩
+    obtain ⟨e, hd, -⟩ := S.dec_enc a v hnz
+    exact ⟨e, hd⟩
+
+/-- one byte string per element: two accepted strings decoding to the same group element are equal -/
+theorem dec_unique (S : GroupSpec G) {b b' : Bytes} {e e' : G.Elem} (hb : IsBytes b)
+    (hb' : IsBytes b') (hd : G.dec b = .ok e) (hd' : G.dec b' = .ok e')
+    (h : S.abs e = S.abs e') : b = b' := by
+  obtain ⟨v, he⟩ := S.dec_strict b e hb hd
+  obtain ⟨v', he'⟩ := S.dec_strict b' e' hb' hd'
+  rw [← he, ← he']; exact (S.enc_inj e e' v v').mpr h
+
+/-- a key is only ever derived from a body the decoder accepted (every group object, every record) -/
+theorem finish_key_implies_decoded (i : Inst G) {msg k : Bytes} (h : (i.finish msg).2 = .ok k) :
+    ∃ body e, msg = peerByte i.side ++ body ∧ G.dec body = .ok e := by
+  obtain ⟨hf, -, body, hm, hx⟩ := finish_ok_peer_byte i h
+  rw [finish_result i hf hx] at h
+  cases hd : G.dec body with
+  | error err => rw [finishKey_dec_error hd] at h; cases h
+  | ok e => exact ⟨body, e, hm, hd⟩
+
+/-- … hence, under the contract, only from the canonical fixed-width encoding of a subgroup member -/
+theorem finish_only_on_members (S : GroupSpec G) (i : Inst G) {msg k : Bytes} (hm : IsBytes msg)
+    (h : (i.finish msg).2 = .ok k) :
+    ∃ body e, msg = peerByte i.side ++ body ∧ G.dec body = .ok e ∧ body.length = G.elemSize ∧
+      msg.length = 1 + G.elemSize ∧ S.Valid e ∧ G.enc e = body ∧ (S.q : ℤ) • S.abs e = 0 ∧
+      (S.rejectsIdentity = true → S.abs e ≠ 0) := by
+  obtain ⟨body, e, hmsg, hd⟩ := finish_key_implies_decoded i h
+  have hb : IsBytes body := by rw [hmsg] at hm; exact (isBytes_append.mp hm).2
+  obtain ⟨hl, v, he, ht, hnz, -⟩ := dec_accepted S hb hd
+  refine ⟨body, e, hmsg, hd, hl, ?_, v, he, ht, hnz⟩
+  rw [hmsg, List.length_append, hl]
+  cases i.side <;> rfl
+
+
+/-! ### C02 helpers -/
+
+/-- C02 for two sessions produced by `start()` (possibly different passwords, identities and
+parameter sets over the same group object) -/
+theorem binding_asym_started (S : GroupSpec G) {P P' : Params G} (hP : ValidParams S P)
+    (hP' : ValidParams S P') {pw idA idB pw' idA' idB' : Bytes} {entA entB : Entropy}
+    {a b : Inst G} {mA mB dA dB k : Bytes}
+    (hA : (Inst.new .A pw idA idB P entA).start = (a, .ok mA))
+    (hB : (Inst.new .B pw' idA' idB' P' entB).start = (b, .ok mB))
+    (hdA : IsBytes dA) (hdB : IsBytes dB)
+    (hkA : (a.finish dA).2 = .ok k) (hkB : (b.finish dB).2 = .ok k) :
+    Collision ∨
+    (pw = pw' ∧ idA = idA' ∧ idB = idB' ∧ dB = mA ∧ dA = mB ∧
+      ∃ x y, a.xyScalar = some x ∧ b.xyScalar = some y ∧
+        keyAbs S P .A (G.p2s pw) x (msgAbs S P' .B (G.p2s pw') y) =
+          keyAbs S P' .B (G.p2s pw') y (msgAbs S P .A (G.p2s pw) x)) := by
+  obtain ⟨x, obA, rfl, ra, sa, pa, ia, ja, qa, -⟩ := start_ready S hP hA
+  obtain ⟨y, obB, rfl, rb, sb, pb, ib, jb, qb, -⟩ := start_ready S hP' hB
+  rcases binding_asym S ra rb sa sb hdA hdB hkA hkB with hc | ⟨h1, h2, h3, h4, h5, KA, KB, -, -, -, h6, h7, h8, -⟩
+  · exact Or.inl hc
+  · refine Or.inr ⟨by rw [← pa, ← pb]; exact h1, by rw [← ia, ← ib]; exact h2,
+      by rw [← ja, ← jb]; exact h3, h4, h5, x, y, ra.xy, rb.xy, ?_⟩
+    rw [pa, pb, qa, qb] at h7 h8
+    rw [← h7, ← h8, h6]
+
+theorem binding_sym_started (S : GroupSpec G) {P P' : Params G} (hP : ValidParams S P)
+    (hP' : ValidParams S P') {pw idS idB₁ pw' idS' idB₂ : Bytes} {ent₁ ent₂ : Entropy}
+    {a b : Inst G} {m₁ m₂ d₁ d₂ k : Bytes}
+    (hA : (Inst.new .S pw idS idB₁ P ent₁).start = (a, .ok m₁))
+    (hB : (Inst.new .S pw' idS' idB₂ P' ent₂).start = (b, .ok m₂))
+    (hd₁ : IsBytes d₁) (hd₂ : IsBytes d₂)
+    (hk₁ : (a.finish d₁).2 = .ok k) (hk₂ : (b.finish d₂).2 = .ok k) :
+    Collision ∨
+    (pw = pw' ∧ idS = idS' ∧ ((d₁ = m₂ ∧ d₂ = m₁) ∨ (m₁ = m₂ ∧ d₁ = d₂))) := by
+  obtain ⟨x, ob₁, rfl, ra, sa, pa, ia, -⟩ := start_ready S hP hA
+  obtain ⟨y, ob₂, rfl, rb, sb, pb, ib, -⟩ := start_ready S hP' hB
+  rcases binding_sym S ra rb sa sb hd₁ hd₂ hk₁ hk₂ with hc | ⟨h1, h2, in₁, in₂, K₁, K₂, e1, e2, -, -, -, -, -, h3⟩
+  · exact Or.inl hc
+  · refine Or.inr ⟨by rw [← pa, ← pb]; exact h1, by rw [← ia, ← ib]; exact h2, ?_⟩
+    rcases h3 with ⟨j1, j2⟩ | ⟨j1, j2⟩
+    · exact Or.inl ⟨by rw [e1, j1]; rfl, by rw [e2, j2]; rfl⟩
+    · exact Or.inr ⟨by rw [j1], by rw [e1, e2, j2]⟩
+
+/-- the A/B binding theorem across two *different group objects*: equal keys force (up to a
+collision) equal element widths as well -/
+theorem binding_asym_two_groups {G₁ G₂ : Group} (S₁ : GroupSpec G₁) (S₂ : GroupSpec G₂)
+    {a : Inst G₁} {b : Inst G₂} {x y : ℤ} {obA obB dA dB k : Bytes}
+    (ha : Ready S₁ a x obA) (hb : Ready S₂ b y obB) (sa : a.side = .A) (sb : b.side = .B)
+    (hdA : IsBytes dA) (hdB : IsBytes dB)
+    (hkA : (a.finish dA).2 = .ok k) (hkB : (b.finish dB).2 = .ok k) :
+    Collision ∨
+    (G₁.elemSize = G₂.elemSize ∧ a.pw = b.pw ∧ a.idA = b.idA ∧ a.idB = b.idB ∧
+      dB = Consts.sideA ++ obA ∧ dA = Consts.sideB ++ obB ∧
+      ∃ KA KB, S₁.Valid KA ∧ S₂.Valid KB ∧ G₁.enc KA = G₂.enc KB ∧
+        k = finalizeSPAKE2 a.idA a.idB obA obB (G₁.enc KA) a.pw) := by
+  obtain ⟨bodyA, eA', KA, mA, -, vA', encA', lenA, -, vKA, aKA, kA⟩ := finish_ok_inv S₁ ha hdA hkA
+  obtain ⟨bodyB, eB', KB, mB, -, vB', encB', lenB, -, vKB, aKB, kB⟩ := finish_ok_inv S₂ hb hdB hkB
+  obtain ⟨eA, vA, aA, encA, lA, -⟩ := ha.ob_elem
+  obtain ⟨eB, vB, aB, encB, lB, -⟩ := hb.ob_elem
+  rw [sa] at mA
+  rw [sb] at mB
+  have e1 : a.finalize bodyA obA (G₁.enc KA)
+      = finalizeSPAKE2 a.idA a.idB obA bodyA (G₁.enc KA) a.pw := by simp [Inst.finalize, sa]
+  have e2 : b.finalize bodyB obB (G₂.enc KB)
+      = finalizeSPAKE2 b.idA b.idB bodyB obB (G₂.enc KB) b.pw := by simp [Inst.finalize, sb]
+  have hfin : finalizeSPAKE2 a.idA a.idB obA bodyA (G₁.enc KA) a.pw
+      = finalizeSPAKE2 b.idA b.idB bodyB obB (G₂.enc KB) b.pw := by rw [← e1, ← e2, ← kA, ← kB]
+  have lKA := (S₁.enc_len KA vKA).1
+  have lKB := (S₂.enc_len KB vKB).1
+  by_cases hs : G₁.elemSize = G₂.elemSize
+  · rcases finalize_injective (by rw [lA, lenB, hs]) (by rw [lenA, lB, hs]) hfin with
+      hc | ⟨i1, i2, i3, i4, i5, i6⟩
+    · exact Or.inl hc
+    · refine Or.inr ⟨hs, i6, i1, i2, by rw [mB, i3]; rfl, by rw [mA, i4]; rfl, KA, KB, vKA, vKB, i5, ?_⟩
+      rw [kA, e1, i4]
+  · left
+    have hfin' := hfin
+    rw [finalize_def, finalize_def] at hfin'
+    rcases sha256_inj_or hfin' with hc | hT
+    · exact hc
+    · exfalso
+      have := congrArg List.length hT
+      simp only [List.length_append, sha256_length, lA, lenA, lKA, lB, lenB, lKB] at this
+      omega
+
+/-- the symmetric binding theorem across two different group objects -/
+theorem binding_sym_two_groups {G₁ G₂ : Group} (S₁ : GroupSpec G₁) (S₂ : GroupSpec G₂)
+    {a : Inst G₁} {b : Inst G₂} {x y : ℤ} {ob₁ ob₂ d₁ d₂ k : Bytes}
+    (ha : Ready S₁ a x ob₁) (hb : Ready S₂ b y ob₂) (sa : a.side = .S) (sb : b.side = .S)
+    (hd₁ : IsBytes d₁) (hd₂ : IsBytes d₂)
+    (hk₁ : (a.finish d₁).2 = .ok k) (hk₂ : (b.finish d₂).2 = .ok k) :
+    Collision ∨
+    (G₁.elemSize = G₂.elemSize ∧ a.pw = b.pw ∧ a.idA = b.idA ∧
+      ∃ in₁ in₂, d₁ = Consts.sideS ++ in₁ ∧ d₂ = Consts.sideS ++ in₂ ∧
+        ((in₁ = ob₂ ∧ in₂ = ob₁) ∨ (ob₁ = ob₂ ∧ in₁ = in₂))) := by
+  obtain ⟨body₁, e₁, K₁, m₁, -, v₁, enc₁, len₁, -, vK₁, aK₁, k₁⟩ := finish_ok_inv S₁ ha hd₁ hk₁
+  obtain ⟨body₂, e₂, K₂, m₂, -, v₂, enc₂, len₂, -, vK₂, aK₂, k₂⟩ := finish_ok_inv S₂ hb hd₂ hk₂
+  obtain ⟨eA, vA, aA, encA, lA, -⟩ := ha.ob_elem
+  obtain ⟨eB, vB, aB, encB, lB, -⟩ := hb.ob_elem
+  rw [sa] at m₁
+  rw [sb] at m₂
+  have f₁ : a.finalize body₁ ob₁ (G₁.enc K₁)
+      = finalizeSymmetric a.idA body₁ ob₁ (G₁.enc K₁) a.pw := by simp [Inst.finalize, sa]
+  have f₂ : b.finalize body₂ ob₂ (G₂.enc K₂)
+      = finalizeSymmetric b.idA body₂ ob₂ (G₂.enc K₂) b.pw := by simp [Inst.finalize, sb]
+  have hfin : finalizeSymmetric a.idA body₁ ob₁ (G₁.enc K₁) a.pw
+      = finalizeSymmetric b.idA body₂ ob₂ (G₂.enc K₂) b.pw := by rw [← f₁, ← f₂, ← k₁, ← k₂]
+  have lK₁ := (S₁.enc_len K₁ vK₁).1
+  have lK₂ := (S₂.enc_len K₂ vK₂).1
+  by_cases hs : G₁.elemSize = G₂.elemSize
+  · rcases finalize_sym_injective len₁ lA (by rw [len₂, hs]) (by rw [lB, hs]) hfin with
+      hc | ⟨i1, i2, -, i4⟩
+    · exact Or.inl hc
+    · refine Or.inr ⟨hs, i2, i1, body₁, body₂, m₁, m₂, ?_⟩
+      rcases i4 with ⟨j1, j2⟩ | ⟨j1, j2⟩
+      · exact Or.inr ⟨j2, j1⟩
+      · exact Or.inl ⟨j1, j2.symm⟩
+  · left
+    have hfin' := hfin
+    rw [finalize_sym_def, finalize_sym_def] at hfin'
+    rcases sha256_inj_or hfin' with hc | hT
+    · exact hc
+    · exfalso
+      have := congrArg List.length hT
+      have s1 : (sorted2 body₁ ob₁).1.length + (sorted2 body₁ ob₁).2.length = 2 * G₁.elemSize := by
+        rcases sorted2_cases body₁ ob₁ with e | e <;> simp [e, len₁, lA] <;> omega
+      have s2 : (sorted2 body₂ ob₂).1.length + (sorted2 body₂ ob₂).2.length = 2 * G₂.elemSize := by
+        rcases sorted2_cases body₂ ob₂ with e | e <;> simp [e, len₂, lB] <;> omega
+      simp only [List.length_append, sha256_length, lK₁, lK₂] at this
+      omega
+
+
+/-! ### C10 helpers -/
+
+/-- the hashed string of `hash_params()`, by role -/
+theorem hashParams_formula {i : Inst G} {hp : Bytes} (h : i.hashParams = .ok hp) :
+    ∃ a0 s0, G.arb [] = .ok a0 ∧ G.scalarEnc (G.p2s []) = .ok s0 ∧
+      (i.side = .S → hp = hexlify (Sha.sha256 (G.enc a0 ++ s0 ++ G.enc i.params.S))) ∧
+      (i.side ≠ .S → hp = hexlify (Sha.sha256
+        (G.enc a0 ++ s0 ++ G.enc i.params.M ++ G.enc i.params.N))) := by
+  obtain ⟨a0, s0, ha, hs, e⟩ := hashParams_inv h
+  refine ⟨a0, s0, ha, hs, fun hS => ?_, fun hS => ?_⟩
+  · rw [e, hS]; rfl
+  · rw [e]; revert hS; cases i.side <;> simp [fpPieces]
+
+/-- **an independent encoder of the released format**: for any role, byte-string password and
+identities, valid parameters and scalar `x ∈ [0,q)`, the released-format object built directly from
+these fields -- in any member order and with any JSON whitespace -- is accepted by
+`from_serialized` of that role and parameters and resumes exactly that session -/
+theorem released_format_restores (S : GroupSpec G) {P : Params G} (hP : ValidParams S P)
+    (side : Side) {pw idA idB : Bytes} (hpw : IsBytes pw) (hA : IsBytes idA) (hB : IsBytes idB)
+    {x : ℤ} (hx : 0 ≤ x ∧ x < (S.q : ℤ)) {a0 : G.Elem} (harb : G.arb [] = .ok a0) :
+    ∃ hp xs ob, (Inst.new side pw idA idB P ⟨[]⟩).hashParams = .ok hp ∧
+      G.scalarEnc x = .ok xs ∧ xs.length = G.scalarSize ∧
+      (∃ e, S.Valid e ∧ S.abs e = msgAbs S P side (G.p2s pw) x ∧ ob = G.enc e) ∧
+      ∀ (d' : Json.Dict) (w0 w1 : Bytes) (ws : Nat → PairWs),
+        d'.Perm (dictOf side hp idA idB pw xs) → IsWs w0 → IsWs w1 → (∀ n, (ws n).Ok) →
+        ∃ i', fromSerialized side (dumpsWs w0 w1 ws d') P = .ok i' ∧ Ready S i' x ob ∧
+          i'.side = side ∧ i'.pw = pw ∧ i'.idA = idA ∧ (side ≠ .S → i'.idB = idB) ∧
+          i'.params = P ∧ i'.xyScalar = some x ∧ i'.outbound = some ob := by
+  obtain ⟨e, ve, ae, he⟩ := outboundFor_spec S (Inst.new side pw idA idB P ⟨[]⟩) hP x
+  let i0 : Inst G := { Inst.new side pw idA idB P ⟨[]⟩ with
+    started := true, xyScalar := some x, outbound := some (G.enc e) }
+  have rd : Ready S i0 x (G.enc e) :=
+    ⟨hP, rfl, rfl, rfl, rfl, hx, rfl, by rw [← he]; exact outboundFor_congr rfl rfl rfl x⟩
+  obtain ⟨s0, -, -, -, hh⟩ := hashParams_ok S i0 harb
+  obtain ⟨xs, hxs, hl, -, -, hser⟩ := serialize_format S rd hh
+  obtain ⟨hp', xs', hh', hxs', -, hall⟩ := accepts_released_format S rd (i := i0) hA hB hpw hser
+  rw [hh] at hh'; injection hh' with hh'
+  rw [hxs] at hxs'; injection hxs' with hxs'
+  subst hh'; subst hxs'
+  obtain ⟨i', hr, hss, rd', -⟩ := restore_transparent S rd (i := i0) hA hB hpw hser
+  refine ⟨hexlify (Sha.sha256 (fpPieces i0.side i0.params a0 s0)), xs, G.enc e, ?_, hxs, hl,
+    ⟨e, ve, ae, rfl⟩, ?_⟩
+  · rw [← hh]; exact hashParams_congr rfl rfl
+  · intro d' w0 w1 ws hperm h0 h1 hws
+    refine ⟨i', ?_, rd', hss.side.symm, hss.pw.symm, hss.idA.symm,
+      fun hS => (hss.idB hS).symm, hss.params.symm, rd'.xy, rd'.outbound⟩
+    rw [hall d' w0 w1 ws side P hperm h0 h1 hws]
+    exact hr
+
+
+/-! ### C03 helpers -/
+
+theorem exists_of_map_ok {α β : Type} {x : R α} {f : α → β} {b : β} (h : x.map f = .ok b) :
+    ∃ a, x = .ok a ∧ f a = b := by
+  cases x with
+  | error e => cases h
+  | ok a => exact ⟨a, rfl, by injection h⟩
+
+/-- from the evaluated encodings of the three `arbitrary_element` calls to the parameter set -/
+theorem mkParams_encodings {sM sN sS bM bN bS : Bytes}
+    (hM : (G.arb sM).map G.enc = .ok bM) (hN : (G.arb sN).map G.enc = .ok bN)
+    (hS : (G.arb sS).map G.enc = .ok bS) :
+    ∃ P, mkParams G sM sN sS = .ok P ∧ G.enc P.M = bM ∧ G.enc P.N = bN ∧ G.enc P.S = bS := by
+  obtain ⟨M, h1, e1⟩ := exists_of_map_ok hM
+  obtain ⟨N, h2, e2⟩ := exists_of_map_ok hN
+  obtain ⟨S', h3, e3⟩ := exists_of_map_ok hS
+  exact ⟨⟨M, N, S'⟩, mkParams_of_arb h1 h2 h3, e1, e2, e3⟩
+
+
+theorem intGroup_params_encodings (IP : IntGroupParams) {sM sN sS bM bN bS : Bytes}
+    (hM : (IG.arb IP sM).map (IG.enc IP) = .ok bM) (hN : (IG.arb IP sN).map (IG.enc IP) = .ok bN)
+    (hS : (IG.arb IP sS).map (IG.enc IP) = .ok bS) :
+    ∃ P, mkParams (intGroup IP) sM sN sS = .ok P ∧ (intGroup IP).enc P.M = bM ∧
+      (intGroup IP).enc P.N = bN ∧ (intGroup IP).enc P.S = bS :=
+  mkParams_encodings (G := intGroup IP) hM hN hS
+
+theorem edGroup_params_encodings (c : Curve) {sM sN sS bM bN bS : Bytes}
+    (hM : (Ed25519.arb c sM).map (Ed25519.toBytes c) = .ok bM)
+    (hN : (Ed25519.arb c sN).map (Ed25519.toBytes c) = .ok bN)
+    (hS : (Ed25519.arb c sS).map (Ed25519.toBytes c) = .ok bS) :
+    ∃ P, mkParams (edGroup c) sM sN sS = .ok P ∧ (edGroup c).enc P.M = bM ∧
+      (edGroup c).enc P.N = bN ∧ (edGroup c).enc P.S = bS :=
+  mkParams_encodings (G := edGroup c) hM hN hS
+
+/-- the message `start()` returns is the side byte followed by exactly `elemSize` bytes -/
+theorem start_message_shape (S : GroupSpec G) {P : Params G} (hP : ValidParams S P)
+    {side : Side} {pw idA idB : Bytes} {ent : Entropy} {a : Inst G} {m : Bytes}
+    (h : (Inst.new side pw idA idB P ent).start = (a, .ok m)) :
+    ∃ body, m = side.byte ++ body ∧ body.length = G.elemSize ∧ m.length = G.elemSize + 1 ∧
+      IsBytes m := by
+  obtain ⟨x, ob, rfl, rd, -⟩ := start_ready S hP h
+  obtain ⟨e, -, -, -, hl, hb⟩ := rd.ob_elem
+  refine ⟨ob, rfl, hl, ?_, isBytes_append.mpr ⟨by cases side <;> decide, hb⟩⟩
+  rw [List.length_append, hl]
+  cases side <;> simp [Side.byte, Consts.sideA, Consts.sideB, Consts.sideS] <;> omega
+
+/-- the transcript layout of `_finalize`, by role -/
+theorem finalize_layout (i : Inst G) (inb ob K : Bytes) :
+    (i.side = .A → i.finalize inb ob K =
+      Sha.sha256 (Sha.sha256 i.pw ++ Sha.sha256 i.idA ++ Sha.sha256 i.idB ++ ob ++ inb ++ K)) ∧
+    (i.side = .B → i.finalize inb ob K =
+      Sha.sha256 (Sha.sha256 i.pw ++ Sha.sha256 i.idA ++ Sha.sha256 i.idB ++ inb ++ ob ++ K)) ∧
+    (i.side = .S → i.finalize inb ob K =
+      Sha.sha256 (Sha.sha256 i.pw ++ Sha.sha256 i.idA ++ (sorted2 inb ob).1 ++ (sorted2 inb ob).2
+        ++ K)) := by
+  refine ⟨fun h => ?_, fun h => ?_, fun h => ?_⟩ <;> simp [Inst.finalize, h, finalizeSPAKE2,
+    finalize_sym_def]
+
+
+/-! ### Ed25519 non-vacuity: default parameters and edge scalars -/
+
+section EdNonVacuity
+set_option maxRecDepth 100000
+
+/-- the default parameter set of the shipped Ed25519 group object exists -/
+theorem ed_default_params_exists : ∃ P, defaultParams GEd = .ok P := by
+  obtain ⟨P, h, -⟩ := edGroup_params_encodings Spake2Model.ed25519 PublishedEval.generated_M_ed
+    PublishedEval.generated_N_ed PublishedEval.generated_S_ed
+  exact ⟨P, h⟩
+
+/-- 64 zero bytes of entropy give the secret scalar `0` -/
+theorem ed_random_zero : GEd.randomScalar ⟨List.replicate 64 0⟩ = .ok (0, ⟨[]⟩) := by
+  show Ed25519.randomScalar Spake2Model.ed25519 ⟨List.replicate 64 0⟩ = .ok (0, ⟨[]⟩)
+  decide +kernel
+
+/-- the 64-byte big-endian encoding of `L - 1` gives the secret scalar `L - 1` -/
+theorem ed_random_Lm1 :
+    GEd.randomScalar ⟨natToBE 64 (Ed.L_c - 1).toNat⟩ = .ok (Ed.L_c - 1, ⟨[]⟩) := by
+  show Ed25519.randomScalar Spake2Model.ed25519 ⟨natToBE 64 (Ed.L_c - 1).toNat⟩ = .ok (Ed.L_c - 1, ⟨[]⟩)
+  decide +kernel
+
+/-- started Ed25519 sessions with the edge scalars `0` and `L - 1` exist, for every role, password
+and identities, under the default parameters -/
+theorem ed_start_edge (side : Side) (pw idA idB : Bytes) :
+    ∃ (P : Params GEd) (a b : Inst GEd) (mA mB : Bytes), defaultParams GEd = .ok P ∧
+      (Inst.new side pw idA idB P ⟨List.replicate 64 0⟩).start = (a, .ok mA) ∧
+      a.xyScalar = some 0 ∧
+      (Inst.new side pw idA idB P ⟨natToBE 64 (Ed.L_c - 1).toNat⟩).start = (b, .ok mB) ∧
+      b.xyScalar = some (Ed.L_c - 1) := by
+  obtain ⟨P, hP⟩ := ed_default_params_exists
+  have v := validParams_of_mkParams specGen hP
+  obtain ⟨a, mA, h1, h2⟩ := start_exists specGen v side pw idA idB ed_random_zero
+  obtain ⟨b, mB, h3, h4⟩ := start_exists specGen v side pw idA idB ed_random_Lm1
+  exact ⟨P, a, b, mA, mB, hP, h1, h2, h3, h4⟩
+
+end EdNonVacuity
+
 /-! ### the toy group `IntegerGroup(23, 11, 2)` -/
 
 def toyP : IntGroupParams := ⟨23, 11, 2⟩
@@ -180,6 +558,202 @@ theorem toy_baseOrder : toySpec.BaseOrder :=
 theorem toy_torsionIsCyclic : toySpec.TorsionIsCyclic :=
   torsionIsCyclic_of_prime_modulus _ _ _ _ _ (by decide) (by decide) (by decide)
 
+
+/-- a second toy parameter set that differs from `toyParams` only in `M` (`9` instead of `3`) -/
+def toyParamsM9 : Params toyG := ⟨(9 : ℤ), (18 : ℤ), (8 : ℤ)⟩
+
+theorem toy_validM9 : ValidParams toySpec toyParamsM9 :=
+  ⟨(by decide : (0 : ℤ) < 9 ∧ (9 : ℤ) < toyP.p ∧ Py.pow3 9 toyP.q toyP.p = 1),
+   (by decide : (0 : ℤ) < 18 ∧ (18 : ℤ) < toyP.p ∧ Py.pow3 18 toyP.q toyP.p = 1),
+   (by decide : (0 : ℤ) < 8 ∧ (8 : ℤ) < toyP.p ∧ Py.pow3 8 toyP.q toyP.p = 1)⟩
+
+/-- K1a on the toy group, evaluated: `A` holds `M = 3`, `B` holds `M = 9`; when `B`'s secret scalar is
+`0` both ends return the same key, when it is `5` they do not -/
+theorem toy_k1a :
+    ((Inst.new (G := toyG) .A [1] [1] [2] toyParams ⟨[4]⟩).start.1.finish
+        ((Inst.new (G := toyG) .B [1] [1] [2] toyParamsM9 ⟨[0]⟩).start.2.toOption.getD [])).2 =
+    ((Inst.new (G := toyG) .B [1] [1] [2] toyParamsM9 ⟨[0]⟩).start.1.finish
+        ((Inst.new (G := toyG) .A [1] [1] [2] toyParams ⟨[4]⟩).start.2.toOption.getD [])).2 ∧
+    (((Inst.new (G := toyG) .A [1] [1] [2] toyParams ⟨[4]⟩).start.1.finish
+        ((Inst.new (G := toyG) .B [1] [1] [2] toyParamsM9 ⟨[0]⟩).start.2.toOption.getD [])).2).toOption.isSome
+      = true ∧
+    ((Inst.new (G := toyG) .A [1] [1] [2] toyParams ⟨[4]⟩).start.1.finish
+        ((Inst.new (G := toyG) .B [1] [1] [2] toyParamsM9 ⟨[5]⟩).start.2.toOption.getD [])).2 ≠
+    ((Inst.new (G := toyG) .B [1] [1] [2] toyParamsM9 ⟨[5]⟩).start.1.finish
+        ((Inst.new (G := toyG) .A [1] [1] [2] toyParams ⟨[4]⟩).start.2.toOption.getD [])).2 := by
+  decide +kernel
+
+/-- K1b on the toy group, evaluated: two symmetric ends with the same secret scalar, both handed the
+same third message `S‖2`, return the same key -/
+theorem toy_k1b :
+    ((Inst.new (G := toyG) .S [1] [7] [] toyParams ⟨[4]⟩).start.1.finish [83, 2]).2 =
+    ((Inst.new (G := toyG) .S [1] [7] [8] toyParams ⟨[4, 9]⟩).start.1.finish [83, 2]).2 ∧
+    (((Inst.new (G := toyG) .S [1] [7] [] toyParams ⟨[4]⟩).start.1.finish [83, 2]).2).toOption.isSome
+      = true := by
+  decide +kernel
+
+
+/-! ### C09 helpers -/
+
+/-- same group object: if the parameters offered on restore differ (in encoding) from the saved
+ones in a blinding element the role uses, the restore fails with `WrongGroupError` -- or a SHA-256
+collision is exhibited -/
+theorem restore_mismatch_detected (S : GroupSpec G) {i : Inst G} {x : ℤ} {ob s : Bytes}
+    (h : Ready S i x ob) (hA : IsBytes i.idA) (hB : IsBytes i.idB) (hpw : IsBytes i.pw)
+    (hs : i.serialize = .ok s) {P' : Params G} (hP' : ValidParams S P')
+    (hdiff : (i.side = .S → G.enc P'.S ≠ G.enc i.params.S) ∧
+      (i.side ≠ .S → G.enc P'.M ≠ G.enc i.params.M ∨ G.enc P'.N ≠ G.enc i.params.N)) :
+    Collision ∨ fromSerialized i.side s P' = .error .WrongGroupError := by
+  obtain ⟨hp, hh⟩ := serialize_ok_hash hs
+  obtain ⟨a0, s0, ha0, hs0, -⟩ := hashParams_inv hh
+  have hh' : (blank i.side i.pw i.idA i.idB P').hashParams = .ok
+      (hexlify (Sha.sha256 (fpPieces (blank i.side i.pw i.idA i.idB P').side
+        (blank i.side i.pw i.idA i.idB P').params a0 s0))) := hashParams_of ha0 hs0
+  by_cases he : hp = hexlify (Sha.sha256 (fpPieces (blank i.side i.pw i.idA i.idB P').side
+        (blank i.side i.pw i.idA i.idB P').params a0 s0))
+  · rw [← he] at hh'
+    rcases fingerprint_binds S S (i₁ := i) (i₂ := blank i.side i.pw i.idA i.idB P') h.params hP'
+        rfl rfl (by simp [blank, Inst.new]) hh hh' with hc | ⟨a₁, a₂, s₁, s₂, -, -, -, -, -, -, bS, bMN⟩
+    · exact Or.inl hc
+    · exfalso
+      by_cases hS : i.side = .S
+      · exact hdiff.1 hS (bS hS).symm
+      · obtain ⟨e1, e2⟩ := bMN hS
+        rcases hdiff.2 hS with h' | h'
+        · exact h' e1.symm
+        · exact h' e2.symm
+  · exact Or.inr (restore_wrong_params S h hA hB hpw hs P' hh hh' he)
+
+/-- restoring across two group objects: whenever `from_serialized` (class `side`, group `G₂`,
+parameters `P₂`) accepts the state serialised by a session over `G₁`, the class is the saving class
+and the two fingerprints are equal, hence (equal widths) a collision is exhibited or the encodings
+of `arbitrary_element(b"")`, `password_to_scalar(b"")` and of the used blinding elements agree -/
+theorem restore_cross_group_binds {G₁ G₂ : Group} (S₁ : GroupSpec G₁) (S₂ : GroupSpec G₂)
+    {i : Inst G₁} {x : ℤ} {ob s : Bytes} (h : Ready S₁ i x ob) (hA : IsBytes i.idA)
+    (hB : IsBytes i.idB) (hpw : IsBytes i.pw) (hs : i.serialize = .ok s)
+    {side : Side} {P₂ : Params G₂} (hP₂ : ValidParams S₂ P₂) {i₂ : Inst G₂}
+    (hr : fromSerialized side s P₂ = .ok i₂)
+    (hel : G₁.elemSize = G₂.elemSize) (hsc : G₁.scalarSize = G₂.scalarSize) :
+    side = i.side ∧ i₂.params = P₂ ∧
+    (Collision ∨ ∃ a₁ a₂ s₁ s₂, G₁.arb [] = .ok a₁ ∧ G₂.arb [] = .ok a₂ ∧
+      G₁.scalarEnc (G₁.p2s []) = .ok s₁ ∧ G₂.scalarEnc (G₂.p2s []) = .ok s₂ ∧
+      G₁.enc a₁ = G₂.enc a₂ ∧ s₁ = s₂ ∧
+      (i.side = .S → G₁.enc i.params.S = G₂.enc P₂.S) ∧
+      (i.side ≠ .S → G₁.enc i.params.M = G₂.enc P₂.M ∧ G₁.enc i.params.N = G₂.enc P₂.N)) := by
+  obtain ⟨hp, xs, hh, -, -, -, -, hser, hclean, -⟩ :=
+    fromSerialized_of_ready S₁ h hA hB hpw hs i.side i.params
+  obtain ⟨d, hp₂, hparse, hside, hhp, hh₂, hs₂, hpar₂⟩ := restore_checks hr
+  rw [hser, Json.parse_dumps hclean] at hparse
+  injection hparse with hparse
+  subst hparse
+  rw [dictOf_side] at hside
+  rw [dictOf_hp] at hhp
+  injection hhp with hhp
+  subst hhp
+  have hsd : side = i.side := by
+    injection hside with hside
+    revert hside
+    cases side <;> cases i.side <;> simp [Side.byte, Consts.sideA, Consts.sideB, Consts.sideS]
+  refine ⟨hsd, hpar₂, ?_⟩
+  have := fingerprint_binds S₁ S₂ (i₁ := i) (i₂ := i₂) h.params (hpar₂ ▸ hP₂) hel hsc
+    (by rw [hs₂, hsd]) hh hh₂
+  rw [hpar₂] at this
+  exact this
+
+theorem restore_wrong_side_started (S : GroupSpec G) {P : Params G} (hP : ValidParams S P)
+    {side : Side} {pw idA idB : Bytes} (hpw : IsBytes pw) (hidA : IsBytes idA) (hidB : IsBytes idB)
+    {ent : Entropy} {a : Inst G} {m s : Bytes}
+    (hst : (Inst.new side pw idA idB P ent).start = (a, .ok m)) (hs : a.serialize = .ok s)
+    {side' : Side} (hne : side' ≠ side) (P' : Params G) :
+    fromSerialized side' s P' =
+      .error (if side = .S then .other .KeyError else .WrongSideSerialized) := by
+  obtain ⟨x, ob, -, rd, sa, pa, ia, ja, qa, -⟩ := start_ready S hP hst
+  have := restore_wrong_side S rd (ia ▸ hidA) (ja ▸ hidB) (pa ▸ hpw) hs (side := side')
+    (by rw [sa]; exact hne) P'
+  rw [sa] at this
+  exact this
+
+theorem restore_other_params_started (S : GroupSpec G) {P P' : Params G} (hP : ValidParams S P)
+    (hP' : ValidParams S P')
+    {side : Side} {pw idA idB : Bytes} (hpw : IsBytes pw) (hidA : IsBytes idA) (hidB : IsBytes idB)
+    {ent : Entropy} {a a' : Inst G} {m s : Bytes}
+    (hst : (Inst.new side pw idA idB P ent).start = (a, .ok m)) (hs : a.serialize = .ok s)
+    (hr : fromSerialized side s P' = .ok a') :
+    Collision ∨ (a'.outbound = a.outbound ∧ (∃ ob, a'.outbound = some ob ∧ m = side.byte ++ ob) ∧
+      ∀ msg, IsBytes msg → (a'.finish msg).2 = (a.finish msg).2) := by
+  obtain ⟨x, ob, hm, rd, sa, pa, ia, ja, qa, -⟩ := start_ready S hP hst
+  rw [← sa] at hr
+  rcases restore_other_params S rd (ia ▸ hidA) (ja ▸ hidB) (pa ▸ hpw) hs hP' hr with hc | ⟨h1, h2⟩
+  · exact Or.inl hc
+  · exact Or.inr ⟨by rw [h1, rd.outbound], ⟨ob, h1, hm⟩, h2⟩
+
+theorem restore_mismatch_detected_started (S : GroupSpec G) {P P' : Params G}
+    (hP : ValidParams S P) (hP' : ValidParams S P')
+    {side : Side} {pw idA idB : Bytes} (hpw : IsBytes pw) (hidA : IsBytes idA) (hidB : IsBytes idB)
+    {ent : Entropy} {a : Inst G} {m s : Bytes}
+    (hst : (Inst.new side pw idA idB P ent).start = (a, .ok m)) (hs : a.serialize = .ok s)
+    (hdiff : (side = .S → G.enc P'.S ≠ G.enc P.S) ∧
+      (side ≠ .S → G.enc P'.M ≠ G.enc P.M ∨ G.enc P'.N ≠ G.enc P.N)) :
+    Collision ∨ fromSerialized side s P' = .error .WrongGroupError := by
+  obtain ⟨x, ob, -, rd, sa, pa, ia, ja, qa, -⟩ := start_ready S hP hst
+  have := restore_mismatch_detected S rd (ia ▸ hidA) (ja ▸ hidB) (pa ▸ hpw) hs hP'
+    (by rw [sa, qa]; exact hdiff)
+  rw [sa] at this
+  exact this
+
+/-- finding K2: `hash_params()` of an integer group does not read the generator -/
+theorem fingerprint_ignores_generator (p q g g' : ℤ) (side : Side) (pw idA idB : Bytes)
+    (M N S' : ℤ) (ent : Entropy) :
+    (Inst.new (G := intGroup ⟨p, q, g⟩) side pw idA idB ⟨M, N, S'⟩ ent).hashParams =
+    (Inst.new (G := intGroup ⟨p, q, g'⟩) side pw idA idB ⟨M, N, S'⟩ ent).hashParams := rfl
+
+/-- K2 evaluated on the toy group: state saved under `IntegerGroup(23, 11, 2)` is accepted by
+`from_serialized` under `IntegerGroup(23, 11, 4)` (same `M`, `N`, `S`), and the restored session
+sends a *different* element -/
+theorem toy_k2 :
+    ((fromSerialized (G := intGroup ⟨23, 11, 4⟩) .A
+        ((Inst.new (G := toyG) .A [1] [1] [2] toyParams ⟨[4]⟩).start.1.serialize.toOption.getD [])
+        ⟨(3 : ℤ), (18 : ℤ), (8 : ℤ)⟩).toOption.map (fun i => i.outbound)) = some (some [12]) ∧
+    (Inst.new (G := toyG) .A [1] [1] [2] toyParams ⟨[4]⟩).start.1.outbound = some [18] := by
+  decide +kernel
+
+
+/-! ### C04 helpers: the Ed25519 instance meets `TorsionIsCyclic` -/
+
+section EdTorsion
+open Spake2Verif.Spec Spake2Verif.Edw
+set_option maxRecDepth 100000
+
+instance instFactGenQ : Fact (Nat.Prime Spake2Model.ed25519.Q.toNat) := curveOK_gen.fact
+
+/-- the curve behind `specGen` is (definitionally) the curve `C25519` of `Spec/EdOrder.lean` -/
+theorem EC_gen_eq : CurveOK.EC curveOK_gen = C25519 := rfl
+
+/-- … and its base point is `Bpt` -/
+theorem BP_gen_eq : CurveOK.BP curveOK_gen = Bpt := rfl
+
+/-- **the `L`-torsion of Ed25519 (generated constants) is the cyclic group generated by the base
+point** -- from `#E = 8·L` (`CurveCard.torsion_cyclic`) -/
+theorem specGen_torsionIsCyclic : specGen.TorsionIsCyclic := by
+  intro a ha
+  have hb : specGen.abs (edGroup Spake2Model.ed25519).base = Bpt :=
+    (CurveOK.abs_base curveOK_gen).trans BP_gen_eq
+  obtain ⟨n, hn⟩ := torsion_cyclic (a : Point C25519) ha
+  exact ⟨n, hn.trans (by rw [← hb]; rfl)⟩
+
+end EdTorsion
+
+/-- the toy group, exhaustively: for three passwords (password scalars 3, 0, 9) and the three roles'
+blinding elements, the messages over all 11 secret scalars are the 11 subgroup members, each once -/
+theorem toy_messages_exhaustive :
+    (List.range 11).map (msgBytes (G := toyG) toyParams .A [1]) =
+      [[4], [8], [16], [9], [18], [13], [3], [6], [12], [1], [2]] ∧
+    (List.range 11).map (msgBytes (G := toyG) toyParams .A [13]) =
+      [[1], [2], [4], [8], [16], [9], [18], [13], [3], [6], [12]] ∧
+    (List.range 11).map (msgBytes (G := toyG) toyParams .S [5]) =
+      [[9], [18], [13], [3], [6], [12], [1], [2], [4], [8], [16]] := by
+  decide +kernel
+
 /-- the one-byte entropy stream `[x]`, `x < 11`, makes `random_scalar` return `x` -/
 theorem toy_random (x : ℕ) (hx : x < 11) : toyG.randomScalar ⟨[x]⟩ = .ok ((x : ℤ), ⟨[]⟩) := by
   show IG.randomScalar toyP ⟨[x]⟩ = _
@@ -200,6 +774,41 @@ theorem toy_start (side : Side) (pw idA idB : Bytes) (x : ℕ) (hx : x < 11) :
     ∃ a m, (Inst.new side pw idA idB toyParams ⟨[x]⟩).start = (a, .ok m) ∧
       a.xyScalar = some (x : ℤ) :=
   start_exists toySpec toy_valid side pw idA idB (toy_random x hx)
+
+
+/-! ### kernel evaluations used by the `example`s of C05 -/
+
+section Eval
+set_option maxRecDepth 100000
+
+/-- all one-byte strings of the toy group: exactly the 11 subgroup members are accepted -/
+theorem toy_dec_exhaustive :
+    (List.range 256).filter (fun n => (IG.dec toyP [n]).toOption.isSome) =
+      [1, 2, 3, 4, 6, 8, 9, 12, 13, 16, 18] := by
+  decide +kernel
+
+/-- Ed25519 (published constants): the encoding of the base point decodes to the base point -/
+theorem edPub_dec_base :
+    Ed25519.dec Published.curve (Ed25519.toBytes Published.curve (Ed25519.Base Published.curve)) =
+      .ok (Ed25519.Base Published.curve) := by
+  decide +kernel
+
+/-- Ed25519 (published constants), refused classes: over-long, truncated, canonical identity,
+identity with sign bit, all-zero (order 4), order 2 (`y = Q-1`), `y = Q+1`, off-curve `y = 2` -/
+theorem edPub_dec_refused :
+    (Ed25519.dec Published.curve
+      (Ed25519.toBytes Published.curve (Ed25519.Base Published.curve) ++ [0])).toOption = none ∧
+    (Ed25519.dec Published.curve
+      ((Ed25519.toBytes Published.curve (Ed25519.Base Published.curve)).take 31)).toOption = none ∧
+    (Ed25519.dec Published.curve (1 :: List.replicate 31 0)).toOption = none ∧
+    (Ed25519.dec Published.curve (1 :: List.replicate 30 0 ++ [128])).toOption = none ∧
+    (Ed25519.dec Published.curve (List.replicate 32 0)).toOption = none ∧
+    (Ed25519.dec Published.curve (natToLE 32 (Published.Q - 1).toNat)).toOption = none ∧
+    (Ed25519.dec Published.curve (natToLE 32 (Published.Q + 1).toNat)).toOption = none ∧
+    (Ed25519.dec Published.curve (natToLE 32 2)).toOption = none := by
+  decide +kernel
+
+end Eval
 
 end PropAux
 end Spake2Verif
